@@ -514,9 +514,12 @@ theorem C18_cli_exclusive (o f : String) :
     chooseMode (some o) (some f) = .error .cantSupplyBoth ∧
     startup (some o) (some f) = .error .cantSupplyBoth := ⟨rfl, rfl⟩
 
-/-- with `--format` alone the string is taken as the format; nothing at all means `legacy` -/
+/-- with `--format` alone the (non-empty) string is taken as the format, the empty string is
+rejected like `-o format=`; nothing at all means `legacy` -/
 theorem C18_cli_defaults (f : String) :
-    chooseMode none (some f) = .ok (.format f) ∧ chooseMode none none = .ok .legacy := by
+    chooseMode none (some f) =
+      (if f.toList.isEmpty then .error .invalidFormatString else .ok (.format f)) ∧
+    chooseMode none none = .ok .legacy := by
   exact ⟨rfl, rfl⟩
 
 theorem eq_split_unique (a b v w : List Char) (ha : '=' ∉ a) (hb : '=' ∉ b) :
@@ -685,10 +688,12 @@ example : startup none none = .ok .legacy := by decide
 /-- quirk of the table: an empty value after a fixed name is accepted -/
 example : startup (some "json=") none = .ok .json := by decide
 
-/-- counterexample to "empty format strings are rejected" through the deprecated flag
-(class C18/empty-format-accepted): `--format ''` starts a run that prints empty lines -/
-theorem C18_empty_legacy_format_counterexample :
-    startup none (some "") = .ok (.format "") ∧ startup (some "format=") none = .error .invalidFormatString := by
+/-- **C18 (empty format strings).** Rejected through both spellings (`--format ''` was accepted
+before the repair a3ef9ea: class C18/empty-format-accepted). -/
+theorem C18_empty_format_rejected :
+    startup none (some "") = .error .invalidFormatString ∧
+    startup (some "format=") none = .error .invalidFormatString ∧
+    startup (some "format") none = .error .invalidFormatString := by
   decide
 
 end Ag.C18
